@@ -343,6 +343,7 @@ static void DecodeOP(Word Index) {
             KillPrefBlanksStrComp(&ArgStr[1]);
         } else {
             StrCompCopy(&OpPart, &ArgStr[1]);
+            NLS_UpString(OpPart.str.p_str);
             for (z = 1; z < ArgCnt; z++) {
                 StrCompCopy(&ArgStr[z], &ArgStr[z + 1]);
             }
